@@ -118,7 +118,7 @@ func getter(iface, name string, recv *Term, unsigned bool) *Term {
 func init() {
 	propertyRules["C03"] = []ruleFn{ruleSendPReq, ruleSendPResp, ruleOnceCommit, ruleCommitClear, ruleCVLock, ruleViewLock, ruleViewMono, ruleEpochOwner, ruleStoreBeforeSend, ruleRetransmit}
 	propertyExplain["C03"] = "Per message kind, every typed broadcast site (call of the broadcast wrapper whose argument's MessageType is resolved by send-site typing) is proven to be behind the 'not said yet' guard on every path from every API entry; own Commit/PreCommit are constructed only when the own slot is empty and those tables are cleared only by the height reset; ChangeView sends and view changes are behind the commit lock; the view only increases. Decides the per-node structural causes of non-equivocation; history-wide uniqueness across restarts and peers' recovery compaction are not decided."
-	propertyRules["C01"] = []ruleFn{ruleAccept, ruleVerifyOnStore, ruleOnceCommit, ruleCVLock, ruleViewLock, ruleViewQuorum, ruleArithF, ruleArithM, ruleDefs}
+	propertyRules["C01"] = []ruleFn{ruleAccept, ruleVerifyOnStore, ruleOnceCommit, ruleCVLock, ruleViewLock, ruleViewQuorum, ruleCacheObl, ruleArithF, ruleArithM, ruleDefs}
 	propertyExplain["C01"] = "Composite of the four per-node mechanisms agreement rests on: acceptance behind an M-of-N current-view commit quorum (G-ACCEPT), commit lock on ChangeView sends and view changes (G-CV-LOCK, G-VIEW-LOCK), view change behind an M-of-N ChangeView quorum (G-VIEW-QUORUM), F=(N-1) div 3 and M=N-F in affine normal form (A-F, A-M). It does NOT decide agreement itself, which is a property of several nodes' joint histories under an adversarial scheduler."
 }
 
@@ -461,7 +461,7 @@ func ruleRetransmit(c *RC) *RuleResult {
 // ---- C02 / C01: acceptance ----
 
 func init() {
-	propertyRules["C02"] = []ruleFn{ruleAcceptSite, ruleAccept, rulePreAccept, ruleSlot, ruleVerifyOnStore, ruleRevalidate, ruleHeaderAfterPreBlock, ruleTip, ruleProposalFields, ruleViewResetCover}
+	propertyRules["C02"] = []ruleFn{ruleAcceptSite, ruleAccept, rulePreAccept, ruleSlot, ruleVerifyOnStore, ruleRevalidate, ruleHeaderAfterPreBlock, ruleCacheObl, ruleTip, ruleProposalFields, ruleViewResetCover}
 	propertyExplain["C02"] = "ProcessBlock/ProcessPreBlock have one call site each, proven to be behind an M-of-N quorum counted over current-view entries of the per-validator (pre)commit table with all transactions present; every non-nil store into a per-validator payload table is keyed by the payload's own validator index (distinct validators); block fields PrevHash/BlockIndex come from the ledger callbacks at the height reset and Timestamp/Nonce/TransactionHashes only from the accepted proposal or the proposal builder. Cryptographic soundness of Verify callbacks is not decided."
 }
 
